@@ -14,6 +14,9 @@ Proof. intros H. unfold bind. destruct (m s); auto. Qed.
 Lemma bind_cong_l {A B} (m1 m2 : M A) (f : A -> M B) s : m1 s = m2 s -> bind m1 f s = bind m2 f s.
 Proof. intros H. unfold bind. rewrite H. reflexivity. Qed.
 
+Lemma bind_fuel_l {A B} (m : M A) (f : A -> M B) s : m s = Fuel -> bind m f s = Fuel.
+Proof. intros H. unfold bind. rewrite H. reflexivity. Qed.
+
 Lemma bind_ret_l {A B} (a : A) (f : A -> M B) s : bind (ret a) f s = f a s.
 Proof. reflexivity. Qed.
 
